@@ -1,6 +1,9 @@
 #!/bin/sh
-# runs every thorough check once and prints wall time and status (sizing aid; not a registered command)
-for i in 14 16 11 10 17 12 06 07 15 13 18 09 02 05 08 04 03 01; do
+# runs thorough checks once each and prints wall time and status (sizing aid; not a registered command)
+# usage: bin/thorough_all.sh [ids...]   (default: all, cheapest first)
+ids="$*"
+[ -z "$ids" ] && ids="14 16 11 10 17 12 06 07 15 13 18 09 02 05 08 04 03 01"
+for i in $ids; do
   s=$(date +%s)
   out=$(bin/check C$i --tier thorough 2>&1 | tail -1)
   e=$(date +%s)
